@@ -119,6 +119,8 @@ def check(repo, col, tier):
     col.rule("R-C19-scatter", "trainable values are scattered into the array space their indices were made for", 4)
     col.rule("R-C19-sentinel", "padded (-1) trainable indices reach a scatter only through mode='drop' + remap", 2)
     c10.scatter_sites(repo, col, cl, "R-C19-scatter", "R-C19-sentinel")
+    from . import c05 as _c05
+    _c05.pad_sentinel(repo, col, "R-C19-sentinel")
     col.rule("R-C19-confine", "every edit through a view is confined to the rows in view (a mechanism is present exactly where it was inserted)", 25)
     c11._confine(repo, col, "R-C19-confine")
     col.rule("R-C19-refresh", "a view refreshed after one of its own deletions keeps its rows, edges, scope and kind", 3)
